@@ -16,12 +16,12 @@ from props.c01 import _deg
 ID = "C05"
 RULE = (
     "case = valid growth-grammar network (origins biased to queued kinds, >=2 growth steps) x symbol type x compact "
-    "level in -1..3 x T as number or declared symbolic parameter x 2 admissible states, more_out=True. "
+    "level in -1..3 x T as number or declared symbolic parameter, or a drawn subset of link/ramp/model parameters declared under their natural keys (rho_crit, a, C, tau, ...) x 2 admissible states, more_out=True. "
     "Non-trivial = >=1 queued origin whose flow is not demand-limited in some state (reference-model branch label) "
     "and >=1 interior ramp, outputs finite. Distinct = SHA-1 of the case."
 )
 BUDGET = {"quick": {"examples": 250, "shards": 4}, "thorough": {"fuzz_runs": 3000, "examples": 2500, "shards": 16}}
-EXPECTED_LABELS = ("engine:SX", "engine:MX", "compact:-1", "compact:0", "compact:1", "compact:2", "compact:3", "T:symbolic",
+EXPECTED_LABELS = ("sympars", "engine:SX", "engine:MX", "compact:-1", "compact:0", "compact:1", "compact:2", "compact:3", "T:symbolic",
                    "interior-ramp", "origin:ideal", "origin:main", "origin:ramp_in", "origin:ramp_out", "origin:simp_lim",
                    "origin:simp_unl", "merge")
 ASSUMPTIONS = ["tolerance 1e-9 x sum of absolute terms; link flow compared at 1e-12 relative"]
@@ -32,8 +32,11 @@ NOT_DEMAND = {"main:speed-limited", "main:capacity-limited", "ramp:space", "ramp
 def cases(draw):
     sp = draw(gen_nets.specs(min_ops=2))
     states = [draw(gen_nets.states(sp)) for _ in range(2)]
+    from props import c03
+
     return {"spec": sp, "states": states, "sym": draw(st.sampled_from(["SX", "MX"])),
-            "compact": draw(st.integers(-1, 3)), "T_symbolic": draw(st.sampled_from([None, None, "T", "Tsamp"]))}
+            "compact": draw(st.integers(-1, 3)), "T_symbolic": draw(st.sampled_from([None, None, "T", "Tsamp"])),
+            "sympars": draw(st.one_of(st.none(), st.none(), c03.sympar_choice(sp)))}
 
 
 def strategy(tier):
@@ -46,14 +49,19 @@ def check_case(case, ctx):
     feats = S.features(sp)
     ctx.label(*feats)
     ctx.label("engine:" + sym, f"compact:{compact}")
-    par_over, parameters, values = {}, None, {}
-    if case.get("T_symbolic"):
+    par_over, parameters, values, overrides = {}, None, {}, None
+    if case.get("sympars"):
+        from props import c03
+
+        ctx.label("sympars")
+        overrides, par_over, parameters, values = c03.make_symbolic(sp, sym, case["sympars"])
+    elif case.get("T_symbolic"):
         ctx.label("T:symbolic")
         key = case["T_symbolic"]
         Ts = getattr(cs, sym).sym(key)
         par_over, parameters, values = {"T": Ts}, {key: Ts}, {key: sp["pars"]["T"]}
     params = [(k, 1) for k in (parameters or {})]
-    r = guarded(ctx, "compile", cas.compile_net, sp, sym, compact, True, (), None, par_over, parameters)
+    r = guarded(ctx, "compile", cas.compile_net, sp, sym, compact, True, (), overrides, par_over, parameters)
     if crashed(r):
         return
     F, net, els = r
